@@ -215,7 +215,9 @@ def run(stmts, env, rec, fuel):
         elif k == "out":
             rec.setdefault(id(st[1]), []).append(evaluate(st[4], env))
         elif k == "if":
-            run(st[3] if evaluate(st[2], env) != 0 else st[4], env, rec, fuel)
+            c = evaluate(st[2], env)
+            rec.setdefault(("cond", id(st[1])), []).append(1 if c != 0 else 0)
+            run(st[3] if c != 0 else st[4], env, rec, fuel)
         elif k == "for":
             env[st[2]] = 0
             while binop("<", env[st[2]], evaluate(st[3], env)):
@@ -276,7 +278,22 @@ def mentions_unknown_degree(e, tainted):
         any(mentions_unknown_degree(x, tainted) for x in e[2:])
 
 
-def gen_program(rng, size):
+def const_expr(rng, depth, consts):
+    """an expression over literals, the parameter-free constants in scope and all operators"""
+    if depth <= 0 or rng.random() < 0.35:
+        if consts and rng.random() < 0.5: return rng.choice(consts)
+        return rng.randrange(0, 6)
+    r = rng.random()
+    if r < 0.6: return ("bin", rng.choice(["+", "-", "*", "+", "*"]), const_expr(rng, depth - 1, consts), const_expr(rng, depth - 1, consts))
+    if r < 0.8:
+        op = rng.choice(["<", ">", "==", "!=", "<=", ">=", "&", "|", "^", "&&", "||", "\\", "%", "/", "**", "<<", ">>"])
+        rr = rng.randrange(1, 5) if op in ("\\", "%", "/", "**", "<<", ">>") else const_expr(rng, depth - 1, consts)
+        return ("bin", op, const_expr(rng, depth - 1, consts), rr)
+    if r < 0.9: return ("un", rng.choice(["-", "!", "~"]), const_expr(rng, depth - 1, consts))
+    return ("?:", const_expr(rng, depth - 1, consts), const_expr(rng, depth - 1, consts), const_expr(rng, depth - 1, consts))
+
+
+def gen_program(rng, size, mode="degrees"):
     ports = rng.random() < 0.3
     scope = {"scalars": [], "arrays": {}, "ivars": [], "ports": ports}
     state = {"outs": 0, "oarrs": [], "tainted": set(), "nvar": 0}
@@ -286,9 +303,20 @@ def gen_program(rng, size):
         while budget > 0:
             budget -= 1
             r = rng.random()
+            if mode == "values" and depth < 2 and scope["scalars"] and rng.random() < 0.22:
+                # a condition on a variable that may well be constant here
+                cands = [v for v in scope["scalars"] if v in state.get("consts", ())] or scope["scalars"]
+                c = ("bin", rng.choice(["==", "==", "!=", "<", ">", "<=", ">="]), rng.choice(cands), rng.randrange(0, 4))
+                th = block(rng.randrange(0, 3), depth + 1, (in_loop[0], None) if in_loop else None)
+                el = block(rng.randrange(0, 2), depth + 1, (in_loop[0], None) if in_loop else None)
+                stmts.append(("if", [0], c, th, el))
+                continue
             if r < 0.16 and state["nvar"] < 5 and depth == 0:
                 nm = f"v{state['nvar']}"; state["nvar"] += 1
                 e = gen_expr(rng, 2, scope) if rng.random() < 0.8 else None
+                if mode == "values" and rng.random() < 0.75:
+                    e = const_expr(rng, rng.choice([0, 1, 1, 2]), [v for v in scope["scalars"] if v in state.get("consts", ())])
+                    state.setdefault("consts", set()).add(nm)
                 if e is not None and mentions_unknown_degree(e, state["tainted"]): state["tainted"].add(nm)
                 stmts.append(("var", [0], nm, e)); scope["scalars"].append(nm)
             elif r < 0.21 and depth == 0 and len(scope["arrays"]) < 2:
@@ -297,6 +325,8 @@ def gen_program(rng, size):
                 nm = rng.choice(scope["scalars"])
                 op = rng.choice(["=", "=", "=", "+=", "*=", "-="])
                 e = gen_expr(rng, 2, scope)
+                if mode == "values" and rng.random() < 0.5:
+                    e = const_expr(rng, 2, [v for v in scope["scalars"] if v in state.get("consts", ())])
                 if mentions_unknown_degree(e, state["tainted"]): state["tainted"].add(nm)
                 stmts.append(("set", [0], nm, op, e))
             elif r < 0.55 and scope["arrays"]:
@@ -321,6 +351,11 @@ def gen_program(rng, size):
                     stmts.append(("out", [0], f"o{state['outs']}", None, e)); state["outs"] += 1
             elif r < 0.87 and depth < 2:
                 c = ("bin", rng.choice(["==", "<", "!=", ">"]), rng.choice(["n"] + scope["ivars"]), rng.randrange(0, 3))
+                if mode == "values" and rng.random() < 0.75:
+                    # conditions on variables (often constant), on array slots, and on signals
+                    lhs = rng.choice(scope["scalars"] + [("idx", a_, rng.randrange(3)) for a_ in sorted(scope["arrays"])] + ["a", gen_expr(rng, 1, scope)])
+                    c = ("bin", rng.choice(["==", "<", "!=", ">", "<=", ">="]), lhs, rng.randrange(0, 6))
+                    if rng.random() < 0.2: c = ("bin", rng.choice(["&&", "||"]), c, ("bin", "==", "n", rng.randrange(0, 3)))
                 th = block(rng.randrange(1, 3), depth + 1, (in_loop[0], None) if in_loop else None)
                 el = block(rng.randrange(0, 3), depth + 1, (in_loop[0], None) if in_loop else None)
                 stmts.append(("if", [0], c, th, el))
@@ -411,6 +446,116 @@ def claims_of(out):
         if m2 and cur == "CS0013" and not seen:
             res.add(int(m2.group(1))); seen = True
     return res
+
+
+def constant_claims_of(out):
+    """{line: 'true' | 'false'} for the CS0009 findings"""
+    res, cur = {}, None
+    for l in out.split("\n"):
+        m = re.match(r"^(warning|error|note|info)\[(\w+)\]:", l)
+        if m: cur = m.group(2); ln = None; continue
+        if cur != "CS0009": continue
+        m2 = re.search(r"┌─ [^\s:]+:(\d+):\d+", l)
+        if m2 and ln is None: ln = int(m2.group(1))
+        m3 = re.search(r"always (true|false)", l)
+        if m3 and ln is not None and ln not in res: res[ln] = m3.group(1)
+    return res
+
+
+def lines_of_ifs(stmts, acc):
+    for st in stmts:
+        if st[0] == "if": acc[st[1][0]] = st; lines_of_ifs(st[3], acc); lines_of_ifs(st[4], acc)
+        elif st[0] == "for": lines_of_ifs(st[4], acc)
+    return acc
+
+
+def fixed_value_programs():
+    def P_(body): return Prog(body + [("out", [0], "o0", None, "a")], 1, [], False)
+    I = lambda c, th=(), el=(): ("if", [0], c, list(th), list(el))
+    eq = lambda l, r: ("bin", "==", l, r)
+    return [
+        ("constant:true", P_([("var", [0], "v0", 2), I(eq("v0", 2))])),
+        ("constant:false", P_([("var", [0], "v0", 2), I(eq("v0", 3))])),
+        ("constant:folded", P_([("var", [0], "v0", ("bin", "*", 3, 4)), I(eq("v0", 12))])),
+        ("merged:distinct", P_([("var", [0], "v0", 1), I(eq("n", 0), [("set", [0], "v0", "=", 2)]), I(eq("v0", 1))])),
+        ("merged:equal", P_([("var", [0], "v0", 1), I(eq("n", 0), [("set", [0], "v0", "=", 1)]), I(eq("v0", 1))])),
+        ("merged:under-signal-condition", P_([("var", [0], "v0", 1), I(("bin", ">", "a", 3), [("set", [0], "v0", "=", 2)]), I(eq("v0", 1))])),
+        ("loop:counter", P_([("var", [0], "v0", 0), ("for", [0], "i", "n", [("set", [0], "v0", "+=", 1)]), I(eq("v0", 0))])),
+        ("loop:reset-to-same", P_([("var", [0], "v0", 5), ("for", [0], "i", "n", [("set", [0], "v0", "=", 5)]), I(eq("v0", 5))])),
+        ("loop:condition-inside", P_([("var", [0], "v0", 0), ("for", [0], "i", 3, [I(eq("v0", 0)), ("set", [0], "v0", "+=", 1)])])),
+        ("array:one-slot", P_([("arr", [0], "w0", 3), ("seti", [0], "w0", 0, 1), I(eq(("idx", "w0", 1), 1))])),
+        ("array:slot-by-parameter", P_([("arr", [0], "w0", 3), ("seti", [0], "w0", 0, 1), ("seti", [0], "w0", 1, 1), I(eq(("idx", "w0", ("bin", "%", "n", 3)), 1))])),
+        ("array:slot-by-signal", P_([("arr", [0], "w0", 3), ("seti", [0], "w0", 0, 1), ("seti", [0], "w0", 1, 1), I(eq(("idx", "w0", ("bin", "&", "a", 1)), 1))])),
+        ("signal:compared", P_([I(("bin", "<", "a", 3))])),
+        ("signal:times-zero", P_([("var", [0], "v0", ("bin", "*", "a", 0)), I(eq("v0", 0))])),
+        ("signal:minus-itself", P_([("var", [0], "v0", ("bin", "-", "a", "a")), I(eq("v0", 0))])),
+        ("operators:negative-comparison", P_([("var", [0], "v0", ("bin", "-", 0, 1)), I(("bin", "<", "v0", 0))])),
+        ("operators:complement", P_([("var", [0], "v0", ("un", "~", 0)), I(("bin", ">", "v0", 0))])),
+        ("operators:shift-right-of-negative", P_([("var", [0], "v0", ("bin", ">>", ("bin", "-", 0, 1), 1)), I(("bin", ">", "v0", 0))])),
+        ("operators:integer-division", P_([("var", [0], "v0", ("bin", "\\", 7, 2)), I(eq("v0", 3))])),
+        ("operators:field-division", P_([("var", [0], "v0", ("bin", "/", 7, 2)), I(eq(("bin", "*", "v0", 2), 7))])),
+        ("operators:power", P_([("var", [0], "v0", ("bin", "**", 2, 5)), I(eq("v0", 32))])),
+        ("call:constant-argument", P_([("var", [0], "v0", ("call", "sq", 3)), I(eq("v0", 9))])),
+        ("ternary:on-parameter", P_([("var", [0], "v0", ("?:", eq("n", 0), 1, 2)), I(eq("v0", 1))])),
+    ]
+
+
+def suite_values_random(exe, tier, seed, run_cli):
+    """C06 through the CLI: every CS0009 claim (`This condition is always true/false`) against concrete executions"""
+    rng = random.Random(2000 + seed)
+    n_random = 1500 if tier == "thorough" else 150
+    viol, samples = [], []
+    evals = claims = 0
+    d = tempfile.mkdtemp(prefix="vx-e2e-")
+    try:
+        cases = fixed_value_programs() + [(f"random:{k}", gen_program(rng, rng.randrange(5, 13), mode="values")) for k in range(n_random)]
+        for (name, prog) in cases:
+            text = prog.text()
+            path = os.path.join(d, "d.circom"); open(path, "w").write(text)
+            rc, out, err = run_cli(exe, ["-v", path], d)
+            evals += 1
+            what, props = None, ["C06"]
+            made = constant_claims_of(out) if rc in (0, 1) else {}
+            if rc is None or "panicked" in err or rc not in (0, 1):
+                first = next((l for l in err.split("\n") if "panicked" in l), err[:200])
+                what, props = f"the tool aborted (exit {rc}): {first.strip()[:160]}", ["C01"]
+            elif made:
+                ifs = lines_of_ifs(prog.body, {})
+                names = ["a", "b"] + (["c.y"] if prog.ports else [])
+                for ln, pol in sorted(made.items()):
+                    st = ifs.get(ln)
+                    if st is None: continue
+                    claims += 1
+                    want = 1 if pol == "true" else 0
+                    for n in (0, 1, 2, 3):
+                        for _ in range(3):
+                            env = {v: rng.randrange(P) for v in names}
+                            if rng.random() < 0.4: env["a"] = rng.randrange(0, 6)
+                            env["n"] = n
+                            rec = {}
+                            try:
+                                run(prog.body, env, rec, [4000])
+                            except Undefined:
+                                pass     # what was recorded before the undefined operation still happened
+                            seen = rec.get(("cond", id(st[1])), [])
+                            if any(v != want for v in seen):
+                                what = (f"line {ln}: `{text.splitlines()[ln - 1].strip()}` is reported as always {pol} (CS0009), but with n = {n}, a = {env['a']}, b = {env['b']} "
+                                        f"the condition evaluates to {'false' if want else 'true'} (execution {seen.index(1 - want) + 1} of that line)")
+                                break
+                        if what: break
+                    if what: break
+            if len(samples) < 6 and evals % 11 == 1:
+                samples.append({"case": name, "exit": rc, "claims": {str(k): v for k, v in made.items()}})
+            if what and len(viol) < 20:
+                ob = f"e2e|values-random|{name}" if not name.startswith("random:") else "e2e|values-random|random"
+                viol.append({"unit": "e2e", "fn": "Cfg::propagate_values", "obligation": ob, "props": props,
+                             "input": {"case": name, "program": text}, "what": f"{name}: {what} — program:\n{text}", "replay": f"python3 run/e2e.py values-random {tier} {seed}"})
+    finally:
+        shutil.rmtree(d, ignore_errors=True)
+    return {"unit": "e2e-values-random", "evaluations": evals, "distinct_nontrivial": claims, "exhaustive": False,
+            "rule": "the real CLI on generated templates; every CS0009 finding (`This condition is always true / false`) is judged by an independent concrete interpreter over the BN254 field: the program is executed for n = 0..3 with three signal valuations each (random field elements, and small values of the first input), and one execution in which the condition has the other truth value refutes the claim; non-trivial = CS0009 claims judged",
+            "bound": f"{len(fixed_value_programs())} fixed shapes (folded constants, values merged at joins and loop headers, array slots, conditions on signals, operators on negative values, calls, ternaries) + {n_random} random templates of 5..12 statements in which variables are often initialised with constant expressions over 20 operators and conditions compare variables, array slots, signals and expressions with literals",
+            "samples": samples, "violations": viol}
 
 
 def suite(exe, tier, seed, run_cli):
